@@ -83,6 +83,7 @@ type ReplayFile struct {
 	UF         []interp.UFEntry  `json:"uf"`
 	Choices    []uint64          `json:"choices"`
 	Schedule   []int             `json:"schedule,omitempty"`
+	Whats      []string          `json:"schedule_points,omitempty"`
 	Bounds     map[string]int    `json:"bounds"`
 	Native     bool              `json:"native"`
 	Stack      string            `json:"stack,omitempty"`
@@ -517,7 +518,7 @@ func makeReplayFile(cfg *Config, id string, o *Obligation, v *interp.Violation, 
 			ch = append(ch, d.Val)
 		}
 	}
-	return &ReplayFile{Property: id, Obligation: o.Name, Pkg: o.Pkg, Files: o.Files, Fn: o.Fn, Kind: v.Kind, Label: v.Label, Detail: v.Detail, Tags: v.Tags, Model: v.Model, UF: v.UFTable, Choices: ch, Schedule: v.Schedule, Bounds: bounds, Native: o.Native, Stack: v.Stack, Tier: cfg.Tier}
+	return &ReplayFile{Property: id, Obligation: o.Name, Pkg: o.Pkg, Files: o.Files, Fn: o.Fn, Kind: v.Kind, Label: v.Label, Detail: v.Detail, Tags: v.Tags, Model: v.Model, UF: v.UFTable, Choices: ch, Schedule: v.Schedule, Whats: v.Whats, Bounds: bounds, Native: o.Native, Stack: v.Stack, Tier: cfg.Tier}
 }
 
 func writeReplay(cfg *Config, rf *ReplayFile, n int) string {
@@ -730,7 +731,7 @@ func Replay(cfg *Config, rf *ReplayFile, l *loaded) (reproduced bool, how string
 			return true, "engine-trace", "concrete re-execution of the SSA under the model fails the same assertion"
 		}
 	}
-	return false, "engine-trace", fmt.Sprintf("concrete re-execution outcomes %v %v", res.Eng.Outcomes, res.Eng.Msgs)
+	return false, "engine-trace", fmt.Sprintf("concrete re-execution outcomes %v %v schedule=%v", res.Eng.Outcomes, res.Eng.Msgs, res.Eng.LastWhats)
 }
 
 // ReplayPath implements `gosym replay <file>`.
